@@ -313,6 +313,21 @@ def b_native(B):
         ok = ok and set(zip(r0[0].tolist(), r0[1].tolist())) == {(a, b) for a, b, p in zip(ind0[0].tolist(), ind0[1].tolist(), pol0.tolist()) if p > 0}
         ok = ok and set(zip(f1[1].tolist(), f1[0].tolist())) == {(a, b) for a, b, p in zip(ind0[0].tolist(), ind0[1].tolist(), pol0.tolist()) if p < 0}
         B.case(("train", t, n), ok, detail="TTL train not recovered")
+    # a full-session line (2^21 + 777 samples): one event at every power of two and its neighbours (block-wise implementations must not drop
+    # the sample pairs that straddle two blocks), 1-D and 2-D along axis 0
+    nl = 2 ** 21 + 777
+    ev = sorted({2 ** k + d for k in range(8, 22) for d in (-1, 0, 1)} | {1, nl - 1, 3 * 2 ** 19})
+    ev = [e for e in ev if 1 <= e < nl]
+    line = np.zeros(nl, np.int8)
+    for e in ev:
+        line[e:] = 1 - line[e:]
+    ind, pol = U.fronts(line)
+    okl = ind.tolist() == ev and np.array_equal(pol, np.where(np.arange(len(ev)) % 2 == 0, 1, -1))
+    okl = okl and U.rises(line).tolist() == ev[0::2] and U.falls(line).tolist() == ev[1::2]
+    two = np.stack([line, 1 - line], axis=1)
+    i2, p2 = U.fronts(two, axis=0)
+    okl = okl and sorted(zip(i2[0].tolist(), i2[1].tolist())) == sorted([(e, c) for e in ev for c in (0, 1)])
+    B.case("long_line_events_at_powers_of_two", bool(okl), detail={"events": len(ev), "recovered": int(ind.size)})
     for t in range(40):
         n = int(rng.integers(2, 200))
         x = rng.normal(1.2, 0.5, size=n)
@@ -396,6 +411,16 @@ def b_nidq(B):
                         i0, p0 = U.fronts(ttl[sl, j])
                         if not (np.array_equal(i1, i0) and np.array_equal(p1, p0)):
                             bad.append(("analog line", j, f"{i0.size} events written, {i1.size} recovered"))
+            # the same samples read again on the same reader with another threshold / floor percentile: each call thresholds with its own options
+            with spikeglx.Reader(f) as sr:
+                for kw in ({"threshold": 1.2}, {"threshold": 2.9}, {"threshold": 1.2, "floor_percentile": None}, {"threshold": 1.2}, {"threshold": 0.4}):
+                    for sl in (slice(0, ns), slice(0, ns)):
+                        got = sr.read_sync(sl, **kw)
+                        raw_v = sr.read(sl, slice(nma, nma + na), sync=False)
+                        base_ = np.percentile(raw_v, 10, axis=0) if kw.get("floor_percentile", 10) is not None else 0
+                        want_a = ((raw_v - base_) >= kw["threshold"]).astype(got.dtype)
+                        if got.shape != (ns, 16 + na) or not np.array_equal(got[:, 16:], want_a) or not np.array_equal(got[:, :16], dig):
+                            bad.append(("read_sync repeated with other options", kw))
             B.case(("nidq", na, nma), not bad, detail=bad[:4])
     finally:
         shutil.rmtree(d, ignore_errors=True)
